@@ -40,6 +40,13 @@ def bases():
     out.append({'min_part': 8, 'config': dict(cfg), 'transfers': [{'kind': 'copy', 'size': 20,
                                                                     'extra_args': dict(ssec, CopySourceSSECustomerAlgorithm='AES256', CopySourceSSECustomerKey='s' * 32,
                                                                                        MetadataDirective='REPLACE', Metadata={'a': 'b'})}]})
+    # multipart transfers of exactly ONE part (threshold below the part size, size between the two; also size == threshold ==
+    # part size) and of exactly two
+    cfg1 = dict(cfg, multipart_threshold=8, multipart_chunksize=16)
+    for t in ({'kind': 'copy', 'size': 8}, {'kind': 'copy', 'size': 13}, {'kind': 'copy', 'size': 16}, {'kind': 'upload', 'src': 'path', 'size': 12},
+              {'kind': 'upload', 'src': 'nonseekable', 'size': 16}, {'kind': 'copy', 'size': 17}):
+        out.append({'min_part': 8, 'config': dict(cfg1), 'transfers': [t]})
+    out.append({'min_part': 8, 'config': dict(cfg, multipart_threshold=8, multipart_chunksize=8), 'transfers': [{'kind': 'copy', 'size': 8}]})
     return out
 
 
